@@ -184,7 +184,10 @@ struct flat_set {
     }
 
     template <typename InputIt>
-    constexpr auto insert(etl::sorted_unique_t /*tag*/, InputIt first, InputIt last) -> void;
+    constexpr auto insert(etl::sorted_unique_t /*tag*/, InputIt first, InputIt last) -> void
+    {
+        insert(first, last);
+    }
 
     constexpr auto extract() && -> container_type
     {
